@@ -102,14 +102,6 @@ theorem parseSciC_fmtSci (neg : Bool) (d : Nat × Bool × Nat) (hm : d.1 < 10 ^ 
       exact absurd (List.cons.inj heq).1 hd0
     · rw [parse_body d hm _ rfl]
 
-/-- the rounded mantissa has 7 digits (always true for `0 < |x| < 10^400`; kept as a decidable side condition
-    because the exponent search of the model is bounded) -/
-def sciOK (x : Rat) : Bool :=
-  if x = 0 then true else if x < 0 then decide ((sciDecomp (-x)).1 < 10 ^ 7) else decide ((sciDecomp x).1 < 10 ^ 7)
-
-/-- **precision clause**: `x` is its own rounding to 7 significant decimal digits -/
-def Exact7 (x : Rat) : Bool := sciOK x && decide (round7 x = x)
-
 /-- reading a printed number gives exactly its rounding to 7 significant decimal digits (half to even) -/
 theorem parseSci_sci6 (x : Rat) (h : sciOK x = true) : parseSci (sci6 x) = round7 x := by
   unfold sciOK at h
